@@ -38,7 +38,7 @@ FIXTURES = [
     ("c17_bad_unsafe_sync_static", "bad", ["U1", "U2"]),
     ("c17_bad_atomic_rmw", "bad", ["U1b"]),
     ("c17_good_thread_local", "good", []),
-    ("c17_good_mutex", "good", []),
+    ("c17_bad_shared_mutex", "bad", ["U1b"]),   # a process-wide Mutex<Rng>: race-free, but one stream for all threads (what a thread draws depends on the others)
 ]
 
 SYNC_WRAPPERS = ("std::sync::Mutex<", "std::sync::RwLock<", "std::sync::OnceLock<", "std::sync::LazyLock<", "std::sync::Once", "std::sync::atomic::Atomic")
